@@ -37,6 +37,11 @@ CHECKS = {
             "Seeded histories; after update() (or the accessor's own transaction) with the medium quiescent, every accessor is compared with the chip model's FIFOs, flags, OBSERVE_TX and IRQ line; read/clear/flush are checked for exact footprints.",
             "Trusts chip model decisions M1, M5, M6; exact-length reads only.",
             "5 C10"),
+    "C04": ("exploration",
+            "deterministic simulation with all 781 nodes on one simulated air: the (source, destination) pair space is enumerated and each frame is walked hop by hop through the real write()/update() of the nodes involved; pipe registers of all 781 chips compared exhaustively",
+            "All 781 valid addresses are real RF24Network objects on chip models sharing one air; the thorough tier walks all 609 180 ordered pairs of the default configuration (exhaustive for that finite sub-space) plus seeded pairs for random prefix/suffix sets and multicast off; every transmission must be stored by exactly one radio - the reference next hop on the tree path - on a pipe >= 1, and the pipe registers of all chips are checked for collisions. There is no schedule or fault in this property; the simulator supplies the shared medium on which agreement between two nodes' independently computed addresses becomes observable.",
+            "Loss-free medium, sequential stepping (one MCU at a time); chip model M8.",
+            "5 C04"),
     "C05": ("exploration",
             "deterministic simulation of 2..10 network nodes as seeded-scheduled tasks (per-node MCU timing jitter, speed classes, clock skew, stalls) on a shared simulated air; history oracle at quiescence; separate lossy configuration",
             "Every node is a real RF24Network/RoutingOnly object on its own chip model and simulated MCU task; a seeded scheduler decides all interleavings; messages are sent one at a time and the application logs of all nodes are compared with the sent message at quiescence (delivered once, intact, nobody else, fragmented on air). 15 % of runs inject packet/ACK loss and enforce only the safety clauses. Known finding KF-C05-frag-routed is matched narrowly.",
